@@ -201,9 +201,37 @@ func (k knownResults) key() string {
 	return strings.Join(parts, ",")
 }
 
-func classifyResult(rv ssa.Value) int8 {
+func classifyResult(rv ssa.Value) int8 { return classifyResultD(rv, 0) }
+
+func classifyResultD(rv ssa.Value, depth int) int8 {
 	if rv == nil {
 		return 0
+	}
+	// the single result of a function or closure of this module all of whose returns hand back a value that is
+	// not nil (an error constructor such as func(err error) error { return &net.OpError{...} })
+	if call, ok := rv.(*ssa.Call); ok && depth < 3 {
+		if fn := call.Call.StaticCallee(); fn != nil && len(fn.Blocks) > 0 && inModule(fn) && fn.Signature.Results().Len() == 1 {
+			all, n := true, 0
+			for _, b := range fn.Blocks {
+				if fn.Recover == b {
+					continue
+				}
+				for _, in := range b.Instrs {
+					ret, isRet := in.(*ssa.Return)
+					if !isRet {
+						continue
+					}
+					n++
+					vs := retValAt(ret, 0)
+					if len(vs) != 1 || classifyResultD(vs[0], depth+1) != 2 {
+						all = false
+					}
+				}
+			}
+			if all && n > 0 {
+				return 2
+			}
+		}
 	}
 	if isNilConst(rv) {
 		return 1
